@@ -20,6 +20,7 @@ import NumbersModel.Drv.Cache
 import NumbersModel.Drv.Layout
 import NumbersModel.Drv.ObjectStore
 import NumbersModel.Drv.Border
+import NumbersModel.Drv.StyleStore
 import NumbersModel.Drv.Sizes
 import NumbersModel.Drv.TablePipeline
 
@@ -51,7 +52,9 @@ def dispatch (line : String) : String :=
     | "layout" :: rest => handleLayout rest
     | "ostore" :: rest => handleOStore rest
     | "border" :: rest => handleBorder rest
-    | "style" :: rest => handleStyle rest
+    | "style" :: "dedup" :: rest => handleStyle ("dedup" :: rest)
+    | "style" :: "flags" :: rest => handleStyle ("flags" :: rest)
+    | "style" :: rest => handleStyleStore rest
     | "sizes" :: rest => handleSizes rest
     | "labels" :: rest => handleLabels rest
     | "table" :: rest => handleTable rest
